@@ -101,7 +101,13 @@ func MakeReceptorSAN(dnsNames []string, ipAddresses []net.IP, nodeIDs []string) 
 		if err != nil {
 			return nil, err
 		}
-		rawValues = append(rawValues, asn1.RawValue{Tag: 0, Class: 2, IsCompound: true, Bytes: asnOtherName[2:]})
+		// Re-tag the SEQUENCE as [0] IMPLICIT.  The SEQUENCE header is not always two bytes long
+		// (contents of 128 bytes or more use the long length form), so decode it instead of slicing.
+		var otherName asn1.RawValue
+		if _, err = asn1.Unmarshal(asnOtherName, &otherName); err != nil {
+			return nil, err
+		}
+		rawValues = append(rawValues, asn1.RawValue{Tag: 0, Class: 2, IsCompound: true, Bytes: otherName.Bytes})
 	}
 	sanBytes, err := asn1.Marshal(rawValues)
 	if err != nil {
